@@ -15,6 +15,9 @@ L1_NOTE = ('Trusted: the reference semantics (engine/vcommon/src/sem.rs), the fi
 
 add('C01', 'l1', 'Generated well-formed projects are printed from an AST, loaded by the real parser, and every (locale, key, arguments) is evaluated through Locale.strings and compared with a reference rendering of the AST. Sampling of an infinite project space: finds counter-examples, proves nothing.',
     L1_NOTE + 'code generation is observed by the generated-crate tier.')
+add('C02', 'l2', 'Generated packages compiled with load_locales!(); one natively created context per package, switched with set_locale; for every (locale, key, arguments, up to 3 counts) every accessor flavour (t!/tu!/td! views, *_string!, *_display!, the const chain for literal keys) and every scoping route (scope_i18n!, use_i18n_scoped!, scope_locale!, direct and chained) must equal the reference rendering, hence each other.',
+    'Trusted: reference semantics, the decoder of leptos to_html() output (empty text nodes render as one space). Reactive re-rendering is C16.',
+    technique='differential property-based testing across accessor flavours on generated crates, with a reference model')
 add('C03', 'l1', 'Exhaustive enumeration of the 4-locale domain (125 inherits maps x 27 presence patterns x 6 value kinds) at parser level plus random projects with 2-6 locales; text per locale and the DefaultedLocales grouping used by the code generator are compared with the model walk along `inherits`.',
     L1_NOTE + '`exhaustive` in the evidence refers to the enumerated 4-locale sub-domain only.',
     technique='exhaustive enumeration of a finite sub-domain + property-based testing against a reference model')
@@ -41,6 +44,9 @@ add('C11', 'l1', 'Generated projects with escape-heavy literals; every Literal i
 add('C12', 'l0a', 'Exhaustive enumeration of supported sets (size 1-3 quick, 1-4 thorough) x request lists (length 0-3) over a 12-tag universe plus junk entries, anchored by declare_locales! enums, plus random BCP-47 sets; Locale::find_locale / find_matchs are checked against a validity predicate (first request that has any match wins; exact before less specific; unparseable = absent).',
     'Trusted: the harness DynLocale implementation of the public Locale trait (cross-checked against three declare_locales! enums), icu_locid parsing.',
     technique='exhaustive enumeration of small finite domains + property-based testing with a validity-predicate oracle')
+add('C13', 'l2', 'Generated locale sets (regions, scripts, variants, near-duplicates, RTL; default anywhere or unlisted), each compiled with load_locales!(); every identity method of every locale and ~15 probe strings per name near a locale name are observed and compared with the configuration.',
+    'Trusted: the hand list of RTL languages; the ICU parse of a name is computed inside the generated binary with the same icu_locid crate.',
+    technique='property-based testing on generated crates (round-trip and validity-predicate oracles)')
 add('C15', 'l0a', 'Full factorial over cookie header x Accept-Language header x cookie options x parent context x initial_locale for main and sub-contexts created natively (ssr), plus random headers; get_locale_untracked() is compared with the documented precedence model.',
     'Only the server-side (ssr) branches are reachable natively; hydrate/csr sources (html lang, navigator.languages) need a DOM and are not covered.',
     technique='exhaustive factorial enumeration + property-based testing against a precedence model')
